@@ -387,6 +387,401 @@ def model_run(ctx, lines):
         return None
 
 
+# --------------------------------------------------------------------------- source files with comments everywhere
+LINE_RE = re.compile(r"^//line (\S+):(\d+)$")
+
+
+def line_map(lines, fname, mode="display"):
+    """The positions the linter prints for the raw lines 1..n of a file whose text is `lines`,
+    written from the documentation of `//line` directives and of report.DisplayPosition (the
+    oracle's own reading; only the form `//line name:N` at column 1 is ever generated): after
+    such a comment the next line is line N of `name`; the adjusted position is displayed iff
+    `name` ends in .go.  -> list of (file, line, remapped) indexed by raw line - 1.
+    mode "raw" / "adjusted" are the two other candidate printing maps (see infer_print_mode)."""
+    out, cur = [], None
+    for i, l in enumerate(lines, 1):
+        if cur is None or mode == "raw" or (mode == "display" and not cur[0].endswith(".go")):
+            out.append((fname, i, False))
+        else:
+            out.append((cur[0], cur[1] + (i - cur[2]), True))
+        m = LINE_RE.match(l)
+        if m:
+            cur = (m.group(1), int(m.group(2)), i + 1)
+    return out
+
+
+def gen_directive_text(rng):
+    """a `//lint:` comment (any command, with or without reason) or an inert look-alike"""
+    lst, _ = gen_checklist(rng, ["SA4000"], POOL, ["ST1003"])
+    k = rng.below(12)
+    if k < 8:
+        return "//lint:" + rng.choice(["ignore", "ignore", "ignore", "file-ignore", "ignored", ""]) + " " + lst + "".join(" " + w for w in gen_reason(rng))
+    if k == 8:
+        return "//lint:ignore " + lst
+    if k == 9:
+        return rng.choice(["// lint:ignore SA4000 r", "//Lint:ignore SA4000 r", "//nolint:SA4000", "//lint ignore SA4000 r"])
+    if k == 10:
+        return "/*lint:ignore " + lst + " r*/"
+    return "//lint:file-ignore " + lst + " generated"
+
+
+class SrcGen:
+    """Generates one syntactically valid Go file (only parsed, never type-checked) with
+    comment groups at every kind of position: before the package clause, as/after doc comments,
+    above/between/after declarations, specs, struct fields and statements, trailing on a line,
+    detached by blank lines, inside block comments, at the end of the file; `//lint:` lines at
+    every index of their group; optional `//line` directives (column 1, strictly increasing
+    target lines so that adjusted line numbers stay monotone).
+    self.lines: the text; self.marks: one record per comment token that starts with `//lint:`:
+    raw line, column, text and — where the construction fixes it — the raw line `target` of the
+    code the comment is attached to (`None`: left to the model)."""
+    def __init__(self, rng):
+        self.rng = rng
+        self.lines = []
+        self.marks = []
+        self.pending = []      # marks of the open comment group directly above the next code line
+        self.seg = 0
+        self.nline = 0
+        self.hazard = False    # a //line comment stands between the previous code line and the next
+        self.prev_blank = True
+
+    def emit(self, text):
+        self.lines.append(text)
+        self.prev_blank = text.strip() == ""
+        return len(self.lines)
+
+    def blank(self):
+        self.pending = []
+        self.emit("")
+
+    def line_directive(self):
+        self.seg += 1
+        name = ("t%d.go" if self.rng.chance(3, 4) else "g%d.y") % self.seg
+        self.emit("//line %s:%d" % (name, 1000 * self.seg + self.rng.below(50)))
+        # a comment group that contains a //line comment has no construction-fixed target
+        for m in self.pending:
+            m["target"] = None
+        self.pending = []
+        self.hazard = True
+
+    def comment_group(self, indent, attach):
+        """1-3 own-line comments; attach: the group directly precedes a code line"""
+        rng = self.rng
+        n = 1 + rng.below(3)
+        where = rng.below(n)
+        group = []
+        for i in range(n):
+            if i == where or rng.chance(1, 4):
+                t = gen_directive_text(rng)
+            else:
+                t = rng.choice(["// note", "// c10 explanatory comment.", "//", "//go:noinline", "// TODO(x): y"])
+            ln = self.emit("\t" * indent + t)
+            if t.startswith("//lint:"):
+                m = {"line": ln, "col": indent + 1, "text": t, "target": None, "index": i, "of": n}
+                self.marks.append(m)
+                group.append(m)
+        self.pending = group if attach else []
+
+    def block_comment(self, indent):
+        self.pending = []
+        self.emit("\t" * indent + "/*")
+        self.emit("\t" * indent + gen_directive_text(self.rng).replace("/*", "").replace("*/", ""))
+        self.emit("\t" * indent + "*/")
+
+    def before(self, indent):
+        """what may stand between the previous code line and the next one"""
+        rng = self.rng
+        self.pending = []
+        self.hazard = False
+        k = rng.below(20)
+        if k < 6:
+            return
+        if k < 8:
+            self.blank()
+            return
+        if k < 14:                       # a group directly above the code line
+            if rng.chance(1, 3):
+                self.blank()
+            self.comment_group(indent, True)
+            return
+        if k < 16:                       # detached group
+            self.comment_group(indent, False)
+            self.blank()
+            return
+        if k < 17:                       # two groups
+            self.comment_group(indent, False)
+            self.blank()
+            self.comment_group(indent, True)
+            return
+        if k < 18:
+            self.block_comment(indent)
+            return
+        if k < 19:
+            self.blank()
+            self.line_directive()
+            if rng.chance(1, 2):
+                self.comment_group(indent, True)
+                self.hazard = True
+            return
+        self.comment_group(indent, True)
+        self.line_directive()
+
+    def code(self, indent, text, single=True, trailing_ok=True):
+        """one code line; `single`: a complete statement/declaration/spec/field on one line"""
+        rng = self.rng
+        t = "\t" * indent + text
+        tr = None
+        if trailing_ok and rng.chance(1, 8):
+            c = gen_directive_text(rng) if rng.chance(2, 3) else "// trailing note"
+            if not c.startswith("/*"):
+                tr = c
+        ln = len(self.lines) + 1
+        if tr is not None:
+            if tr.startswith("//lint:"):
+                self.marks.append({"line": ln, "col": len(t) + 2, "text": tr, "target": ln if single else None, "ncol": indent + 1,
+                                   "index": 0, "of": 1, "trailing": True})
+            t = t + " " + tr
+        self.emit(t)
+        for m in self.pending:
+            if not self.hazard:
+                m["target"] = ln
+                m["ncol"] = indent + 1
+        self.pending = []
+        self.hazard = False
+        return ln
+
+    def stmts(self, indent, depth):
+        rng = self.rng
+        for _ in range(1 + rng.below(4)):
+            self.before(indent)
+            k = rng.below(9 if depth < 2 else 5)
+            self.nline += 1
+            v = "x%d" % self.nline
+            if k == 0:
+                self.code(indent, "%s := %d" % (v, rng.below(9)))
+            elif k == 1:
+                self.code(indent, "x = %d" % rng.below(9))
+            elif k == 2:
+                self.code(indent, "call(x, %d)" % rng.below(9))
+            elif k == 3:
+                self.code(indent, "var %s []int" % v)
+            elif k == 4:
+                self.code(indent, "call(x,", single=False, trailing_ok=False)
+                self.before(indent + 1) if rng.chance(1, 4) else None
+                self.pending = []
+                self.code(indent + 1, "y)", single=False)
+            elif k == 5:
+                self.code(indent, "if x == x {", single=False)
+                self.stmts(indent + 1, depth + 1)
+                self.pending = []
+                self.code(indent, "}", single=False)
+            elif k == 6:
+                self.code(indent, "for i := range xs {", single=False)
+                self.stmts(indent + 1, depth + 1)
+                self.pending = []
+                self.code(indent, "}", single=False)
+            elif k == 7:
+                self.code(indent, "if x != x {", single=False)
+                self.stmts(indent + 1, depth + 1)
+                self.pending = []
+                self.code(indent, "} else {", single=False, trailing_ok=False)
+                self.stmts(indent + 1, depth + 1)
+                self.pending = []
+                self.code(indent, "}", single=False)
+            else:
+                self.code(indent, "return")
+
+    def decl(self, i):
+        rng = self.rng
+        self.before(0)
+        k = rng.below(8)
+        if k == 0:
+            self.code(0, "var v%d = %d" % (i, i))
+        elif k == 1:
+            self.code(0, "const c%d = %d" % (i, i))
+        elif k == 2:
+            self.code(0, "type t%d struct{ n int }" % i)
+        elif k == 3:
+            self.code(0, "func f%d() {}" % i)
+        elif k == 4:
+            self.code(0, "var (", single=False)
+            for j in range(1 + rng.below(3)):
+                self.before(1)
+                self.code(1, "w%d_%d = %d" % (i, j, j))
+            self.pending = []
+            self.code(0, ")", single=False)
+        elif k == 5:
+            self.code(0, "type s%d struct {" % i, single=False)
+            for j in range(1 + rng.below(3)):
+                self.before(1)
+                self.code(1, "f%d int" % j)
+            self.pending = []
+            self.code(0, "}", single=False)
+        else:
+            self.code(0, "func g%d(x int, xs []int) {" % i, single=False)
+            self.stmts(1, 0)
+            self.pending = []
+            self.code(0, "}", single=False)
+
+    def file(self):
+        rng = self.rng
+        k = rng.below(8)
+        if k == 0:
+            self.line_directive()
+        elif k == 1:
+            self.comment_group(0, False)
+            self.blank()
+        elif k == 2:
+            self.comment_group(0, True)
+        elif k == 3:
+            self.line_directive()
+            self.comment_group(0, True)
+            self.hazard = True
+        self.code(0, "package p", trailing_ok=False)
+        self.blank()
+        for i in range(1 + rng.below(4)):
+            self.decl(i)
+            if rng.chance(2, 3):
+                self.blank()
+        # A comment trailing the last declaration follows the end of the *File* node as well
+        # (ast.File.End is the end of the last declaration): go/ast associates it with the file,
+        # i.e. with the package clause.  An undocumented placement; left to the model.
+        last = max(i for i, l in enumerate(self.lines, 1) if l.strip() and not l.lstrip().startswith(("//", "/*", "*/")) and not l.startswith("\t"))
+        for m in self.marks:
+            if m.get("trailing") and m["line"] == last:
+                m["target"] = None
+        k = rng.below(6)
+        if k == 0:
+            self.comment_group(0, False)
+        elif k == 1:
+            self.blank()
+            self.comment_group(0, False)
+        return self
+
+
+def src_expected(gen):
+    """The oracle for one generated file: every comment token starting with `//lint:` is one
+    directive, read as parseDirective reads it, located where the linter prints the comment;
+    where the construction fixes the code line the comment is attached to, the node position
+    is the printed position of that line's first token."""
+    lm = line_map(gen.lines, "x.go")
+    out = []
+    for m in sorted(gen.marks, key=lambda m: (m["line"], m["col"])):
+        cmd, args = py_parse_comment(m["text"])
+        f, l, remapped = lm[m["line"] - 1]
+        dpos = (f, l, 0 if remapped else m["col"])
+        npos = None
+        if m.get("target"):
+            f, l, remapped = lm[m["target"] - 1]
+            npos = (f, l, 0 if remapped else m["ncol"])
+        out.append((cmd, args, dpos, npos))
+    return out
+
+
+def dec_directives(line):
+    """`<n> <directive>*` -> [(cmd, args, dpos, npos)] or None"""
+    t = line.split()
+    try:
+        n, i, out = int(t[0]), 1, []
+        for _ in range(n):
+            cmd, k = dec_hex(t[i]), int(t[i + 1])
+            args = [dec_hex(x) for x in t[i + 2:i + 2 + k]]
+            i += 2 + k
+            out.append((cmd, args, (dec_hex(t[i]), int(t[i + 1]), int(t[i + 2])), (dec_hex(t[i + 3]), int(t[i + 4]), int(t[i + 5]))))
+            i += 6
+        return out if i == len(t) else None
+    except (ValueError, IndexError):
+        return None
+
+
+def probe_same_line(facts):
+    """Hypothesis of theorem display_same_line, probed on the facts of a real file: positions on
+    the same raw line of the same file have the same adjusted file and line.  -> bad examples"""
+    t = facts.split()
+    seen, bad = {}, []
+    try:
+        nn = int(t[1])
+        i = 2 + nn
+        nnodes = int(t[i])
+        i += 1
+        for _ in range(nnodes):
+            raw, adj = (t[i + 2], t[i + 3]), (t[i + 5], t[i + 6])
+            if seen.setdefault(raw, adj) != adj:
+                bad.append((raw, adj, seen[raw]))
+            i += 10
+    except (ValueError, IndexError):
+        return ["unparseable facts"]
+    return bad
+
+
+def srcfiles(ctx, binp, rng, n, fails, mism, hist, corpus=()):
+    """Tie and oracle for the path comments -> SerializedDirective: generated files through the
+    real lint.ParseDirectives + runner.serializeDirective (op pdf), their syntax facts (op src)
+    through the model's NewCommentMap/ParseDirectives/serializeDirective (op att)."""
+    gens = []
+    for text in corpus:
+        g = SrcGen(rng)
+        g.lines = text.split("\n")
+        # corpus files: every own-line or trailing `//lint:` comment (no block comments in them)
+        for ln, l in enumerate(g.lines, 1):
+            j = l.find("//")
+            if j >= 0 and l[j:].startswith("//lint:") and "/*" not in l:
+                g.marks.append({"line": ln, "col": j + 1, "text": l[j:], "target": None})
+        gens.append(g)
+    for _ in range(n):
+        gens.append(SrcGen(rng).file())
+    lines = []
+    for g in gens:
+        h = hexs("\n".join(g.lines) + "\n")
+        lines += ["src " + h, "pdf " + h]
+    impl = run_impl(ctx, binp, lines)
+    facts = impl[0::2]
+    pdfs = impl[1::2]
+    for g, fa, pd in zip(gens, facts, pdfs):
+        if not fa.startswith("att ") or pd == "parse-error":
+            raise vlib.HarnessError("generated file rejected by go/parser (%s / %s):\n%s" % (fa[:40], pd[:40], "\n".join(g.lines)))
+    model = model_run(ctx, facts)
+    nontrivial = set()
+    for g, fa, pd, mo in zip(gens, facts, pdfs, model if model is not None else pdfs):
+        src = "\n".join(g.lines) + "\n"
+        hist["src"] = hist.get("src", 0) + 1
+        got = dec_directives(pd)
+        exp = src_expected(g)
+        why = None
+        if got is None:
+            why = "unparseable output %r" % pd[:200]
+        elif [(c, a, d) for c, a, d, _ in got] != [(c, a, d) for c, a, d, _ in exp]:
+            miss = [e[:3] for e in exp if e[:3] not in [x[:3] for x in got]]
+            extra = [x[:3] for x in got if x[:3] not in [e[:3] for e in exp]]
+            why = "the `//lint:` comments of the file and the directives read from it differ: not read %r, unexpected %r" % (miss, extra)
+        else:
+            wrong = [(e, x[3]) for e, x in zip(exp, got) if e[3] is not None and (e[3][0], e[3][1]) != (x[3][0], x[3][1])]
+            wrongcol = [(e, x[3]) for e, x in zip(exp, got) if e[3] is not None and e[3] != x[3]]
+            if wrong:
+                why = "directive attached to another line than the code line it stands on/above: %r" % (
+                    [{"directive": e[:3], "expected_node": e[3], "got_node": n} for e, n in wrong][:3],)
+            elif wrongcol:
+                why = "directive node position (where a malformed directive is reported) differs: %r" % (wrongcol[:3],)
+        if exp:
+            nontrivial.add(src)
+            hist["src:directives"] = hist.get("src:directives", 0) + len(exp)
+            hist["src:with-target"] = hist.get("src:with-target", 0) + sum(1 for e in exp if e[3] is not None)
+            hist["src:not-first-in-group"] = hist.get("src:not-first-in-group", 0) + sum(1 for m in g.marks if m.get("index", 0) > 0)
+            hist["src:trailing"] = hist.get("src:trailing", 0) + sum(1 for m in g.marks if m.get("trailing"))
+        if any(LINE_RE.match(l) for l in g.lines):
+            hist["src:with-line-directives"] = hist.get("src:with-line-directives", 0) + 1
+        pb = probe_same_line(fa)
+        if pb:
+            mism.append({"kind": "src", "why": "hypothesis of display_same_line fails on a real file: %r" % (pb[:3],), "source": src})
+        if why:
+            fails.append({"kind": "src", "key": "comment-to-directive", "why": why, "source": src, "impl": pd, "model": mo,
+                          "expected": [list(e) for e in exp]})
+        elif mo != pd:
+            mism.append({"kind": "src", "source": src, "impl": pd, "model": mo})
+    samples = [{"source": "\n".join(gens[i].lines)[:600], "impl": pdfs[i][:300]} for i in range(0, len(gens), max(1, len(gens) // 2))][:2]
+    return len(gens), nontrivial, samples
+
+
 # --------------------------------------------------------------------------- in-process phase
 def run_impl(ctx, binp, lines):
     rc, so, se = vlib.run([binp], input="".join(l + "\n" for l in lines), env=vlib.go_env(), timeout=1800)
@@ -418,7 +813,7 @@ def classify_fi(allowed, diags, dirs, got, use_success):
     return ("added", "added problems wrong: expected %r, got %r" % (sorted(added), sorted(ga)))
 
 
-def inprocess(ctx, binp, rng, n_fi, n_small, fails, mism, hist):
+def inprocess(ctx, binp, rng, n_fi, n_small, fails, mism, hist, n_src=0):
     lines, meta = [], []
     # corpus: fixed regression inputs
     a = ("a.go", 5, 2, "SA4000", "m")
@@ -564,7 +959,11 @@ def inprocess(ctx, binp, rng, n_fi, n_small, fails, mism, hist):
             elif im != mo:
                 mism.append({"kind": "sup", "line": line, "impl": im, "model": mo})
     samples = [{"input": lines[i][:400], "impl": impl[i][:300], "model": model[i][:300]} for i in range(0, len(lines), max(1, len(lines) // 5))][:6]
-    return len(lines), nontrivial, samples
+    # comments of whole files -> serialized directives
+    srcdir = os.path.join(vlib.VERIF, "corpus", "C10", "src")
+    n3, nt3, sm3 = srcfiles(ctx, binp, rng.fork("src"), n_src, fails, mism, hist,
+                            [open(os.path.join(srcdir, fn)).read() for fn in sorted(os.listdir(srcdir))])
+    return len(lines) + n3, nontrivial | nt3, samples + sm3
 
 
 # --------------------------------------------------------------------------- end-to-end phase
@@ -728,27 +1127,274 @@ def e2e_generate(rng, n, sources, base):
     return cases
 
 
-def e2e_predict_inputs(case, sources, base):
-    """Common part of oracle and model prediction: the directive record and the shifted
-    base problems."""
-    f, L = case["file"], case["line"]
-    src = sources[f]
-    indent = len(src[L - 1]) - len(src[L - 1].lstrip("\t"))
-    col = indent + 1
+def shape_case(fname, line, text, cfgname, shape, variant="plain"):
+    c = make_case(fname, line, text, cfgname)
+    c["shape"], c["variant"] = shape, variant
+    return c
+
+
+def e2e_corpus_shapes():
+    """fixed placements inside comment groups, trailing, detached, around the package clause
+    and in files remapped by //line directives (lines of corpus/C10/pkg)"""
+    d = "default"
+    return [
+        shape_case("a.go", 20, "//lint:ignore SA4000 after an explanatory line", d, "group-last"),
+        shape_case("a.go", 20, "//lint:ignore SA4000 before an explanatory line", d, "group-first"),
+        shape_case("a.go", 20, "//lint:ignore SA4000 between two lines", d, "group-middle"),
+        shape_case("a.go", 20, "//lint:ignore SA4000", d, "group-last"),
+        shape_case("a.go", 18, "//lint:ignore SA4000 nothing here", d, "group-last"),
+        shape_case("a.go", 7, "//lint:ignore U1000 kept for symmetry", d, "doc-end"),
+        shape_case("a.go", 13, "//lint:ignore ST1003,U1000 at the end of a doc comment", d, "doc-end"),
+        shape_case("a.go", 3, "//lint:file-ignore SA4000 after an explanatory line", d, "group-last"),
+        shape_case("a.go", 29, "//lint:ignore SA4018 trailing", d, "trailing"),
+        shape_case("a.go", 31, "//lint:ignore SA4006 trailing, one of two", d, "trailing"),
+        shape_case("a.go", 13, "//lint:ignore U1000 trailing", d, "trailing"),
+        shape_case("a.go", 30, "//lint:ignore SA4018 belongs to the line above", d, "detached"),
+        shape_case("a.go", 23, "//lint:ignore SA4000 belongs to the if statement above", d, "detached"),
+        shape_case("a.go", 18, "//lint:ignore SA4006 detached, first statement", d, "detached"),
+        shape_case("a.go", 20, "//lint:ignore SA4000 not a directive", d, "in-block"),
+        shape_case("a.go", 20, "/*lint:ignore SA4000 not a directive*/", d, "above"),
+        shape_case("a.go", 20, "// lint:ignore SA4000 not a directive", d, "group-last"),
+        shape_case("b.go", 2, "//lint:file-ignore SA4000 before the package clause", d, "file-top"),
+        shape_case("b.go", 2, "//lint:file-ignore SA4000 last line of the package doc", d, "file-doc"),
+        shape_case("a.go", 1, "//lint:file-ignore SA4000,S1002 first line of the file", d, "file-top"),
+        shape_case("a.go", 1, "//lint:ignore SA4000 line directive on the package clause", d, "file-doc"),
+        shape_case("a.go", 1, "//lint:file-ignore SA4* after the last declaration", d, "file-end"),
+        shape_case("a.go", 20, "//lint:ignore SA4000 remapped from the first line on", d, "above", "top"),
+        shape_case("a.go", 3, "//lint:file-ignore SA4000 //line precedes the package clause", d, "above", "top"),
+        shape_case("a.go", 1, "//lint:file-ignore SA4000 before the //line comment", d, "file-top", "top"),
+        shape_case("a.go", 20, "//lint:ignore SA4000 remapped from func F on", d, "above", "decl"),
+        shape_case("a.go", 3, "//lint:file-ignore SA4000 only the part printed as a.go", d, "above", "decl"),
+        shape_case("a.go", 23, "//lint:ignore S1002 directly below the //line comment", d, "above", "body"),
+        shape_case("a.go", 29, "//lint:ignore SA4018 remapped mid-function", d, "group-last", "body"),
+        shape_case("a.go", 20, "//lint:ignore SA4000 before the //line comment of the body", d, "above", "body"),
+        shape_case("a.go", 20, "//lint:ignore SA4000 //line names a grammar file", d, "above", "yacc"),
+        shape_case("a.go", 46, "//lint:ignore SA4000 second segment", d, "above", "two"),
+        shape_case("a.go", 13, "//lint:ignore U1000 remapped", d, "above", "top"),
+        shape_case("a.go", 20, "//lint:ignore SA4000", d, "above", "decl"),
+        shape_case("a.go", 18, "//lint:ignore SA4000 nothing here, remapped", d, "above", "decl"),
+        shape_case("b.go", 21, "//lint:ignore SA4000 remapped, second file", "all", "group-last", "decl"),
+        shape_case("a.go", 31, "//lint:ignore SA4010 trailing, remapped", "all", "trailing", "two"),
+    ]
+
+
+def e2e_generate_shapes(rng, n, sources, base):
+    """n placements over shapes x //line variants; names are drawn relative to the problems on
+    the line the construction attaches the comment to"""
+    cases = []
+    cfgnames = list(CONFIGS)
+    pk = {f: next(i for i, l in enumerate(src, 1) if l.startswith("package ")) for f, src in sources.items()}
+    tl = {f: target_lines(src) for f, src in sources.items()}
+    simple = {f: [i for i in tl[f] if is_simple(sources[f][i - 1])] for f in sources}
+    for _ in range(n):
+        cfgname = cfgnames[0] if rng.chance(1, 5) else rng.choice(cfgnames)
+        probs = base[cfgname]["problems"]
+        variant = "plain" if rng.chance(3, 10) else rng.choice(VARIANTS[1:])
+        f = rng.choice(sorted(sources))
+        k = rng.below(40)
+        shape = ("above" if k < 6 and variant != "plain" else "group-last" if k < 12 else "group-first" if k < 15 else "group-middle" if k < 18
+                 else "doc-end" if k < 22 else "trailing" if k < 27 else "detached" if k < 31 else "in-block" if k < 32
+                 else "file-top" if k < 34 else "file-doc" if k < 36 else "file-end" if k < 38 else "group-last")
+        hot = sorted(set(p[1] for p in probs if p[0] == f))
+        if shape.startswith("file-"):
+            line = pk[f]
+        else:
+            pool = simple[f] if shape == "trailing" else tl[f]
+            hotp = [l for l in pool if l in hot]
+            line = rng.choice(hotp) if hotp and rng.chance(2, 3) else rng.choice(pool)
+        # the line (of the unchanged file) the comment is attached to by construction
+        c = shape_case(f, line, NEUTRAL, cfgname, shape, variant)
+        lay, _, t = case_layout(c, sources)
+        gov = lay[f][1][t[0] - 1]
+        on_line = sorted(set(p[3] for p in probs if p[0] == f and p[1] == gov))
+        elsewhere = sorted(set(p[3] for p in probs if not (p[0] == f and p[1] == gov)))
+        lst, classes = gen_checklist(rng, on_line, elsewhere, base[cfgname]["disabled_sample"])
+        k = rng.below(20)
+        if shape == "file-end":
+            # only the file of the attached node is fixed by the construction
+            cmd, reason = ("file-ignore" if k < 17 else "nolint"), ["generated", "code"]
+        else:
+            if shape in ("file-top", "file-doc"):
+                cmd = "file-ignore" if k < 13 else ("ignore" if k < 18 else "Ignore")
+            else:
+                cmd = "ignore" if k < 13 else ("file-ignore" if k < 18 else rng.choice(["ignored", "nolint", "Ignore"]))
+            reason = gen_reason(rng)
+        text = "//lint:" + cmd + " " + lst + "".join(" " + w for w in reason)
+        if shape != "in-block" and rng.chance(1, 12):
+            text = rng.choice(["/*" + text[2:] + "*/", "// " + text[2:], "//Lint" + text[6:]])
+        c["text"] = text
+        c["classes"] = classes
+        cases.append(c)
+    return cases
+
+
+# ---- where a directive is put (shape) and how the file's positions are printed (variant)
+VARIANTS = ("plain", "top", "decl", "body", "yacc", "two")
+SHAPES = ("above", "group-last", "group-first", "group-middle", "doc-end", "trailing", "detached", "in-block",
+          "file-top", "file-doc", "file-end")
+NOTE = "// c10 note"
+NEUTRAL = "// c10 neutral comment"
+
+
+def indent_of(l):
+    return len(l) - len(l.lstrip("\t"))
+
+
+def is_code(l):
+    s = l.strip()
+    return bool(s) and not s.startswith(("//", "/*", "*/"))
+
+
+def is_simple(l):
+    """a statement or declaration that starts and ends on this line"""
+    s = l.strip()
+    return is_code(l) and not s.endswith("{") and not s.startswith(("}", ")")) and not s.startswith("package ")
+
+
+def ins(lines, origin, at, new):
+    """insert the lines `new` before the 1-based line `at`"""
+    return lines[:at - 1] + new + lines[at - 1:], origin[:at - 1] + [0] * len(new) + origin[at - 1:]
+
+
+def variant_layout(src, key, variant):
+    """The file `src` with the `//line` directives of the variant (always at column 1; names
+    t<key>_s<i>.go / .y; target lines in disjoint ranges so that printed positions identify
+    raw ones).  -> (lines, origin): origin[i] = line of `src` that line i+1 came from, 0 if new."""
+    lines, origin = list(src), list(range(1, len(src) + 1))
+
+    def find(prefix):
+        return next(i for i, l in enumerate(lines, 1) if l.startswith(prefix))
+    if variant in ("decl", "two"):
+        lines, origin = ins(lines, origin, find("func F"), ["//line t%s_s2.go:201" % key])
+    if variant == "yacc":
+        lines, origin = ins(lines, origin, find("func F"), ["//line t%s_s4.y:401" % key])
+    if variant == "body":
+        lines, origin = ins(lines, origin, find("\tif b == true {"), ["", "//line t%s_s3.go:301" % key])
+    if variant in ("top", "two"):
+        lines, origin = ins(lines, origin, 1, ["//line t%s_s1.go:101" % key])
+    return lines, origin
+
+
+def apply_shape(lines, origin, L, shape, text):
+    """Put the comment `text` at the 1-based line L of `lines` in the given shape.
+    -> (lines, origin, (dline, dcol), (tline, tcol) or None): the comment's own raw position
+    and the raw position of the first token of the code the comment is attached to, as far as
+    the construction fixes it:
+      above / group-* / doc-end   own-line comment group directly above line L -> line L
+      trailing                    at the end of line L, a statement or declaration that starts and
+                                  ends on it -> line L
+      detached                    own line above L, then an empty line: belongs to the statement or
+                                  declaration that ends on the line directly above, else to line L
+      in-block                    inside a /* */ comment: no directive at all
+      file-top / file-doc         before the package clause (detached / as its last doc line) -> the
+                                  package clause
+      file-end                    after the last declaration, detached: the file's last code line
+                                  (only the *file* is fixed by the construction)"""
+    I = "\t" * indent_of(lines[L - 1])
+    if shape == "above":
+        new, d, t = [I + text], 0, 1
+    elif shape == "group-last":
+        new, d, t = [I + NOTE, I + text], 1, 2
+    elif shape == "group-first":
+        new, d, t = [I + text, I + NOTE], 0, 2
+    elif shape == "group-middle":
+        new, d, t = [I + NOTE, I + text, I + "// c10 more"], 1, 3
+    elif shape == "doc-end":
+        new, d, t = [I + "// c10 doc comment.", I + "//", I + text], 2, 3
+    elif shape == "in-block":
+        new, d, t = [I + "/*", I + text, I + "*/"], 1, 3
+    elif shape == "trailing":
+        assert is_simple(lines[L - 1]), lines[L - 1]
+        code = lines[L - 1]
+        out = lines[:L - 1] + [code + " " + text] + lines[L:]
+        return out, list(origin), (L, len(code) + 2), (L, len(I) + 1)
+    elif shape == "detached":
+        out, org = ins(lines, origin, L, [I + text, ""])
+        k = L - 1                      # 1-based line above the comment group (comments directly
+        while k >= 1 and lines[k - 1].lstrip().startswith("//"):   # above join the group: the //line
+            k -= 1                                                 # comments, the first line of b.go)
+        prev = lines[k - 1] if k >= 1 else ""
+        if not is_code(prev) or prev.rstrip().endswith("{"):
+            return out, org, (L, len(I) + 1), (L + 2, len(I) + 1)
+        if prev.strip().startswith("}"):
+            k = max(j for j in range(1, k) if indent_of(lines[j - 1]) == indent_of(prev) and lines[j - 1].rstrip().endswith("{") and is_code(lines[j - 1]))
+        return out, org, (L, len(I) + 1), (k, indent_of(lines[k - 1]) + 1)
+    elif shape in ("file-top", "file-doc"):
+        pk = next(i for i, l in enumerate(lines, 1) if l.startswith("package "))
+        if shape == "file-top":
+            out, org = ins(lines, origin, 1, [text, ""])
+            return out, org, (1, 1), (pk + 2, 1)
+        out, org = ins(lines, origin, pk, [text])
+        return out, org, (pk, 1), (pk + 1, 1)
+    elif shape == "file-end":
+        n = len(lines) if lines[-1] != "" else len(lines) - 1     # the text ends with a newline
+        last = max(i for i, l in enumerate(lines, 1) if is_code(l) and not l.strip().startswith("}"))
+        out, org = ins(lines, origin, n + 1, ["", text])
+        return out, org, (n + 2, 1), (last, 0)
+    else:
+        raise vlib.HarnessError("unknown shape %r" % shape)
+    out, org = ins(lines, origin, L, new)
+    return out, org, (L + d, len(I) + 1), (L + t, len(I) + 1)
+
+
+def case_layout(case, sources, text=None):
+    """-> ({file: (lines, origin)}, dpos_raw, tpos_raw) of the package of the case; `text`
+    replaces the directive (neutral comment for calibration)."""
+    variant, shape = case.get("variant", "plain"), case.get("shape", "above")
+    lay = {fn: variant_layout(src, fn[0], variant) for fn, src in sources.items()}
+    f = case["file"]
+    lines, origin = lay[f]
+    L = origin.index(case["line"]) + 1
+    lines, origin, d, t = apply_shape(lines, origin, L, shape, case["text"] if text is None else text)
+    lay[f] = (lines, origin)
+    return lay, d, t
+
+
+def case_files(case, sources, text=None):
+    return {fn: lo[0] for fn, lo in case_layout(case, sources, text)[0].items()}
+
+
+def printed(lm, line, col):
+    f, l, remapped = lm[line - 1]
+    return (f, l, 0 if remapped else col)
+
+
+def e2e_predict_inputs(case, sources, base, mode="display"):
+    """Common part of oracle and model prediction: where the linter prints the comment and the
+    first token of the code it is attached to, and where it prints the problems of the
+    directive-free report after the insertion (problems are identified by their raw line: the
+    construction of the variants makes printed positions identify raw ones)."""
+    lay, d, t = case_layout(case, sources)
+    lm = {fn: line_map(lo[0], fn, mode) for fn, lo in lay.items()}
     b = base[case["config"]]
-    shifted = []
+    moved = []
     for p in b["problems"]:
-        if p[0] == f and p[1] >= L:
-            p = (p[0], p[1] + 1) + tuple(p[2:])
-        shifted.append(p)
-    non_u = [p for p in shifted if p[3] != "U1000"]
-    u = [p for p in shifted if p[3] == "U1000"]
-    return (f, L, col), (f, L + 1, col), non_u, u, b["allowed"]
+        raw = lay[p[0]][1].index(p[1]) + 1
+        moved.append(printed(lm[p[0]], raw, p[2]) + tuple(p[3:]))
+    non_u = [p for p in moved if p[3] != "U1000"]
+    u = [p for p in moved if p[3] == "U1000"]
+    f = case["file"]
+    return printed(lm[f], d[0], d[1]), printed(lm[f], t[0], t[1]), non_u, u, b["allowed"]
 
 
-def e2e_oracle(case, sources, base, dev=()):
+def infer_print_mode(variant, sources, base_cal, real):
+    """How does this tree print positions of `//line`-remapped files?  The statement is about
+    the positions the linter prints, whatever they are: the directive-free report of the
+    variant decides between report.DisplayPosition's documented behaviour and the two other
+    candidates (never / always adjusted)."""
+    for mode in ("display", "raw", "adjusted"):
+        exp = []
+        for p in base_cal:
+            lines, origin = variant_layout(sources[p[0]], p[0][0], variant)
+            exp.append(printed(line_map(lines, p[0], mode), origin.index(p[1]) + 1, p[2]) + tuple(p[3:]))
+        if sorted(exp) == sorted(real):
+            return mode
+    raise vlib.HarnessError("directive-free report of the //line variant %r of the fixed package is none of the expected renderings: %r" % (variant, sorted(real)))
+
+
+def e2e_oracle(case, sources, base, dev=(), mode="display"):
     """-> kept, added, must_vanish, may_vanish (bool), u, dirs"""
-    dpos, npos, non_u, u, allowed = e2e_predict_inputs(case, sources, base)
+    dpos, npos, non_u, u, allowed = e2e_predict_inputs(case, sources, base, mode)
     parsed = py_parse_comment(case["text"])
     dirs = [Dir(parsed[0], parsed[1], dpos, npos)] if parsed else []
     kept, added = Spec.filter(False, allowed, [p[:5] for p in non_u], dirs, dev)
@@ -798,24 +1444,17 @@ def e2e_compare(kept, added, must_vanish, may_vanish, u, real, show_ignored, opt
     return out
 
 
-def e2e_key(case, sources, base, r0, r1):
+def e2e_key(case, sources, base, r0, r1, mode="display"):
     """Attribute an oracle failure of the end-to-end phase to a defect class: the smallest
     set of deviations with which the statement reproduces both real reports."""
     import itertools
     for n in (1, 2, 3):
         for dev in itertools.combinations(DEVIATIONS, n):
-            kept, added, mv, may, u, dirs = e2e_oracle(case, sources, base, dev)
+            kept, added, mv, may, u, dirs = e2e_oracle(case, sources, base, dev, mode)
             opt = e2e_optional(added, mv)
             if not e2e_compare(kept, added, mv, may, u, r0, False, opt) and not e2e_compare(kept, added, mv, may, u, r1, True, opt):
                 return "+".join(dev)
     return "e2e"
-
-
-def insert_line(sources, f, L, text):
-    files = {fn: list(src) for fn, src in sources.items()}
-    indent = len(files[f][L - 1]) - len(files[f][L - 1].lstrip("\t"))
-    files[f].insert(L - 1, "\t" * indent + text)
-    return files
 
 
 CHUNK = 400   # cases per scratch module
@@ -839,7 +1478,31 @@ class Copies:
         self.pat = re.compile(r"\b(%s)\b" % "|".join(sorted(names, key=len, reverse=True)))
 
     def rename(self, src_lines, k):
-        return [self.pat.sub(lambda m: m.group(1) + "K%d" % k, l) if not l.lstrip().startswith("//") else l for l in src_lines]
+        """comments are left alone, except that the file names of //line comments get the copy's number"""
+        out = []
+        for l in src_lines:
+            st = l.lstrip()
+            if st.startswith("//line "):
+                l = re.sub(r"^//line t([ab])_(s\d)\.", lambda m: "//line t%s_n%d_%s." % (m.group(1), k, m.group(2)), l)
+            elif not st.startswith(("//", "/*", "*/")):
+                j = l.find(" //")
+                j = l.find(" /*") if j < 0 else j
+                code, com = (l, "") if j < 0 else (l[:j], l[j:])
+                l = self.pat.sub(lambda m: m.group(1) + "K%d" % k, code) + com
+            out.append(l)
+        return out
+
+    FILE_RE = re.compile(r"(?:([ab])|t([ab]))_n(\d+)(?:_(s\d))?\.(go|y)$")
+
+    @staticmethod
+    def unfile(name):
+        """file name of a copy -> (k, raw file a.go/b.go, printed canonical name, remapped?) or None"""
+        m = Copies.FILE_RE.match(name)
+        if not m or (m.group(1) is None) == (m.group(4) is None):
+            return None
+        if m.group(1):
+            return int(m.group(3)), m.group(1) + ".go", m.group(1) + ".go", False
+        return int(m.group(3)), m.group(2) + ".go", "t%s_%s.%s" % (m.group(2), m.group(4), m.group(5)), True
 
     @staticmethod
     def unname(msg, k):
@@ -847,7 +1510,7 @@ class Copies:
 
     def uncol(self, line_text, k, col):
         """column in the original line of the byte that the renaming moved to column `col`"""
-        if line_text.lstrip().startswith("//"):
+        if line_text.lstrip().startswith(("//", "/*", "*/")) or col == 0:
             return col
         s, shift = len("K%d" % k), 0
         for m in self.pat.finditer(line_text):
@@ -858,7 +1521,7 @@ class Copies:
         return col - shift
 
 
-def end_to_end(ctx, sc, rng, n_cases, all_checks, non_default, fails, mism, hist):
+def end_to_end(ctx, sc, binp, rng, n_cases, n_shapes, all_checks, non_default, fails, mism, hist):
     """Placements are materialised in scratch modules and the real binary is run over a
     module: once per -checks selection, with and without -show-ignored (the first run
     analyses, the others read the cache).  See class Copies for how placements share
@@ -906,10 +1569,34 @@ def end_to_end(ctx, sc, rng, n_cases, all_checks, non_default, fails, mism, hist
     if len(base["default"]["problems"]) < 20:
         raise vlib.HarnessError("fixed package no longer has the expected problems: %r" % base["default"]["problems"])
 
+    # directive-free reports of the //line variants of the package: how does this tree print
+    # positions in remapped files (the statement is about printed positions)
+    vk = {v: 900001 + i for i, v in enumerate(VARIANTS[1:])}
+    for v, k in vk.items():
+        materialise(bmod, "basev", {"%s_n%d.go" % (fn[0], k): copies.rename(variant_layout(src, fn[0], v)[0], k) for fn, src in sources.items()})
+    realv = {}
+    for p in run_staticcheck_batch(ctx, sc, bmod, ["basev"], CONFIGS[CAL], False, cache)["basev"]:
+        uf = Copies.unfile(p[0])
+        if uf is None:
+            raise vlib.HarnessError("problem in an unknown file: %r" % (p,))
+        k, rawfn, pname, remapped = uf
+        vlines = variant_layout(sources[rawfn], rawfn[0], [v for v in vk if vk[v] == k][0])[0]
+        col = p[2] if remapped or not 1 <= p[1] <= len(vlines) else copies.uncol(vlines[p[1] - 1], k, p[2])
+        realv.setdefault(k, []).append((pname, p[1], col, p[3], Copies.unname(p[4], k), p[5]))
+    nruns[0] += 1
+    modes = {"plain": "display"}
+    for v, k in vk.items():
+        modes[v] = infer_print_mode(v, sources, base[CAL]["problems"], realv.get(k, []))
+        hist["e2e:print-mode:" + modes[v]] = hist.get("e2e:print-mode:" + modes[v], 0) + 1
+
+    def mode_of(case):
+        return modes[case.get("variant", "plain")]
+
     if ctx.replay_cases is not None:
         cases = [dict(c["case"]) for c in ctx.replay_cases if c.get("kind") == "e2e"]
     else:
-        cases = e2e_corpus() + e2e_generate(rng, n_cases, sources, base)
+        cases = (e2e_corpus() + e2e_generate(rng, n_cases, sources, base)
+                 + e2e_corpus_shapes() + e2e_generate_shapes(rng.fork("shapes"), n_shapes, sources, base))
 
     def run_cases(idxs, ncopies):
         """-> {i: [report, report with -show-ignored]} for the cases idxs, ncopies per package;
@@ -929,12 +1616,12 @@ def end_to_end(ctx, sc, rng, n_cases, all_checks, non_default, fails, mism, hist
                     pkgs.append(name)
                     group = mine[g:g + ncopies]
                     if ncopies == 1:
-                        materialise(mod, name, insert_line(sources, cases[group[0]]["file"], cases[group[0]]["line"], cases[group[0]]["text"]))
+                        materialise(mod, name, case_files(cases[group[0]], sources))
                         where[group[0]] = (name, None)
                         continue
                     for i in group + [None]:          # None: the directive-free control copy
                         k = i if i is not None else 10 ** 6 + g
-                        files = sources if i is None else insert_line(sources, cases[i]["file"], cases[i]["line"], cases[i]["text"])
+                        files = sources if i is None else case_files(cases[i], sources)
                         materialise(mod, name, {"%s_n%d.go" % (fn[0], k): copies.rename(src, k) for fn, src in files.items()})
                         where[i if i is not None else ("control", name)] = (name, k)
                         texts[(name, k)] = files
@@ -961,16 +1648,15 @@ def end_to_end(ctx, sc, rng, n_cases, all_checks, non_default, fails, mism, hist
                     split = {}
                     for name in pkgs:
                         for p in out[name]:
-                            m = re.match(r"([ab])_n(\d+)\.go$", p[0])
+                            uf = Copies.unfile(p[0])
                             if ncopies == 1:
                                 split.setdefault((name, None), []).append(p)
-                            elif m:
-                                k = int(m.group(2))
-                                fn = m.group(1) + ".go"
-                                if (name, k) not in texts or not 1 <= p[1] <= len(texts[(name, k)][fn]):
+                            elif uf:
+                                k, fn, pname, remapped = uf
+                                if (name, k) not in texts or not (remapped or 1 <= p[1] <= len(texts[(name, k)][fn])):
                                     raise vlib.HarnessError("problem at an unknown place: %r" % (p,))
-                                col = copies.uncol(texts[(name, k)][fn][p[1] - 1], k, p[2])
-                                split.setdefault((name, k), []).append((fn, p[1], col, p[3], Copies.unname(p[4], k), p[5]))
+                                col = p[2] if remapped else copies.uncol(texts[(name, k)][fn][p[1] - 1], k, p[2])
+                                split.setdefault((name, k), []).append((pname, p[1], col, p[3], Copies.unname(p[4], k), p[5]))
                             else:
                                 raise vlib.HarnessError("problem in an unknown file: %r" % (p,))
                     for i, key in where.items():
@@ -994,7 +1680,7 @@ def end_to_end(ctx, sc, rng, n_cases, all_checks, non_default, fails, mism, hist
         k0 = 10 ** 6
         for i in group + [None]:
             k = i if i is not None else k0
-            files = sources if i is None else insert_line(sources, cases[i]["file"], cases[i]["line"], "// c10 neutral comment")
+            files = sources if i is None else case_files(cases[i], sources, NEUTRAL)
             materialise(mod, "n", {"%s_n%d.go" % (fn[0], k): copies.rename(src, k) for fn, src in files.items()})
         out = run_staticcheck_batch(ctx, sc, mod, ["n"], CONFIGS[cfgname], show, cache)["n"]
         nruns[0] += 1
@@ -1025,42 +1711,54 @@ def end_to_end(ctx, sc, rng, n_cases, all_checks, non_default, fails, mism, hist
     # placements of cases that disagree with the prediction.
     calib = {}
 
-    def calibrate(spots):
-        spots = [s for s in spots if s not in calib]
-        if not spots:
+    def spot(case):
+        return (case.get("variant", "plain"), case["file"], case["line"], case.get("shape", "above"))
+
+    def calibrate(cs):
+        """cs: cases; their placements (variant, file, line, shape) with a neutral comment in
+        place of the directive must give the directive-free report, moved"""
+        todo = {}
+        for c in cs:
+            if spot(c) not in calib:
+                todo[spot(c)] = dict(c, config=CAL)
+        if not todo:
             return
         mod = new_module()
-        for k, (f, L) in enumerate(spots):
-            materialise(mod, "k%d" % k, insert_line(sources, f, L, "// c10 neutral comment"))
-        out = run_staticcheck_batch(ctx, sc, mod, ["k%d" % k for k in range(len(spots))], CONFIGS[CAL], False, cache)
+        for k, c in enumerate(todo.values()):
+            materialise(mod, "k%d" % k, case_files(c, sources, NEUTRAL))
+        out = run_staticcheck_batch(ctx, sc, mod, ["k%d" % k for k in range(len(todo))], CONFIGS[CAL], False, cache)
         nruns[0] += 1
-        for k, (f, L) in enumerate(spots):
-            exp = sorted((p[0], p[1] + 1 if (p[0] == f and p[1] >= L) else p[1]) + tuple(p[2:]) for p in base[CAL]["problems"])
-            calib[(f, L)] = sorted(out["k%d" % k]) == exp
+        for k, (sp, c) in enumerate(todo.items()):
+            _, _, non_u, u, _ = e2e_predict_inputs(c, sources, base, mode_of(c))
+            calib[sp] = sorted(out["k%d" % k]) == sorted(non_u + u)
         shutil.rmtree(mod, ignore_errors=True)
-        hist["e2e:calibration-packages"] = hist.get("e2e:calibration-packages", 0) + len(spots)
+        hist["e2e:calibration-packages"] = hist.get("e2e:calibration-packages", 0) + len(todo)
 
-    # model predictions: pd for the text, fi for the non-U1000 part, sup for U1000
-    mlines, mslots = [], []
+    # model predictions: the file with the comment in place goes through go/parser (op src of
+    # c10filter: syntax facts only) and the model's NewCommentMap + ParseDirectives +
+    # serializeDirective (op att) -> the directive record(s); fi for the non-U1000 part, sup for U1000
+    flines = []
     for case in cases:
-        dpos, npos, non_u, u, allowed = e2e_predict_inputs(case, sources, base)
-        mlines.append("pd " + hexs(case["text"]))
-        mslots.append(("pd", case))
-    pd_out = model_run(ctx, mlines)
-    have_model = pd_out is not None
+        flines.append("src " + hexs("\n".join(case_files(case, sources)[case["file"]])))
+    facts = run_impl(ctx, binp, flines)
+    for case, fa in zip(cases, facts):
+        if not fa.startswith("att "):
+            raise vlib.HarnessError("the file of case %r does not parse: %s" % (case, fa[:100]))
+    att_out = model_run(ctx, facts)
+    have_model = att_out is not None
     mlines2, idx = [], []
-    for case, pdo in zip(cases, pd_out if have_model else [None] * len(cases)):
-        dpos, npos, non_u, u, allowed = e2e_predict_inputs(case, sources, base)
-        if pdo == "bad-op":
-            raise vlib.HarnessError("model rejected pd line for %r" % case)
+    for case, ao in zip(cases, att_out if have_model else [None] * len(cases)):
+        dpos, npos, non_u, u, allowed = e2e_predict_inputs(case, sources, base, mode_of(case))
         dirs = []
-        if pdo is None:
-            parsed = py_parse_comment(case["text"])
+        if ao is None:
+            parsed = py_parse_comment(case["text"]) if case.get("shape") != "in-block" else None
             dirs = [Dir(parsed[0], parsed[1], dpos, npos)] if parsed else []
-        elif pdo != "none":
-            t = pdo.split()
-            n = int(t[1])
-            dirs = [Dir(dec_hex(t[0]), [dec_hex(x) for x in t[2:2 + n]], dpos, npos)]
+        else:
+            ds = dec_directives(ao)
+            if ds is None or len(ds) > 1:
+                raise vlib.HarnessError("model output for the file of case %r: %s" % (case, ao[:300]))
+            fix = lambda q: (case["file"] if q[0] == "x.go" else q[0], q[1], q[2])
+            dirs = [Dir(c, a, fix(d), fix(n)) for c, a, d, n in ds]
         al = sorted(allowed)
         start = len(mlines2)
         mlines2.append(fi_line(False, al, [p[:5] for p in non_u], dirs))
@@ -1068,7 +1766,7 @@ def end_to_end(ctx, sc, rng, n_cases, all_checks, non_default, fails, mism, hist
             for p in u:
                 mlines2.append("sup %s %s %d %s" % (enc_dir(dirs[0]), hexs(p[0]), p[1], hexs("U1000")))
             # does the directive make the U1000 graph ignore anything at all: ask about its own node
-            mlines2.append("sup %s %s %d %s" % (enc_dir(dirs[0]), hexs(npos[0]), npos[1], hexs("U1000")))
+            mlines2.append("sup %s %s %d %s" % (enc_dir(dirs[0]), hexs(dirs[0].npos[0]), dirs[0].npos[1], hexs("U1000")))
         idx.append((start, len(mlines2), dirs))
     m_out = model_run(ctx, mlines2) if have_model else None
     have_model = have_model and m_out is not None
@@ -1078,8 +1776,8 @@ def end_to_end(ctx, sc, rng, n_cases, all_checks, non_default, fails, mism, hist
 
     def judge(i, r0, r1):
         case = cases[i]
-        dpos, npos, non_u, u, allowed = e2e_predict_inputs(case, sources, base)
-        kept, added, must_vanish, may_vanish, _, dirs = e2e_oracle(case, sources, base)
+        dpos, npos, non_u, u, allowed = e2e_predict_inputs(case, sources, base, mode_of(case))
+        kept, added, must_vanish, may_vanish, _, dirs = e2e_oracle(case, sources, base, (), mode_of(case))
         optional = e2e_optional(added, must_vanish)
         problems = []
         for show, real in ((False, r0), (True, r1)):
@@ -1111,11 +1809,12 @@ def end_to_end(ctx, sc, rng, n_cases, all_checks, non_default, fails, mism, hist
         elif dirs and Spec.wf(dirs[0]):
             cls = "useless-silent"
         rec = {"kind": "e2e", "case": case, "directive": dirs[0].obj() if dirs else None,
+               "files": {fn: "\n".join(src) for fn, src in case_files(case, sources).items()} if problems else None,
                "report_default": [list(p) for p in r0], "report_show_ignored": [list(p) for p in r1],
                "expected_kept": [list(k) for k in kept], "expected_added": [list(a) for a in added],
                "expected_u1000_gone": [list(p) for p in must_vanish]}
         if problems:
-            rec["key"] = e2e_key(case, sources, base, r0, r1)
+            rec["key"] = e2e_key(case, sources, base, r0, r1, mode_of(case))
             rec["why"] = "; ".join(problems)
         elif mproblems:
             rec["model_disagreement"] = mproblems
@@ -1131,7 +1830,9 @@ def end_to_end(ctx, sc, rng, n_cases, all_checks, non_default, fails, mism, hist
         if optional:
             hist["e2e:useless-report-optional"] = hist.get("e2e:useless-report-optional", 0) + 1
         if cls != "none":
-            nontrivial.add((case["file"], case["line"], case["text"], case["config"]))
+            nontrivial.add((case["file"], case["line"], case["text"], case["config"], case.get("shape"), case.get("variant")))
+        hist["e2e:shape:" + case.get("shape", "above")] = hist.get("e2e:shape:" + case.get("shape", "above"), 0) + 1
+        hist["e2e:variant:" + case.get("variant", "plain")] = hist.get("e2e:variant:" + case.get("variant", "plain"), 0) + 1
         if len(samples) < 5 and i % max(1, len(cases) // 5) == 0:
             samples.append({"case": case, "class": cls, "report_without_show_ignored": [list(p) for p in r0 if p[3] != "U1000"][:6]})
 
@@ -1165,12 +1866,12 @@ def end_to_end(ctx, sc, rng, n_cases, all_checks, non_default, fails, mism, hist
             pending_m.append(rec)
     for cb in control_bad[:3]:
         pending_f.append(control_verdict(*cb))
-    calibrate(sorted(set((r["case"]["file"], r["case"]["line"]) for r in pending_f + pending_m if not r.get("no_calibration"))))
+    calibrate([r["case"] for r in pending_f + pending_m if not r.get("no_calibration")])
     sensitive = sorted(sp for sp, ok in calib.items() if not ok)
     if sensitive:
         ctx.notes.append("disagreements discarded at placements where a neutral comment already changes the report: %r" % sensitive)
-    fails += [r for r in pending_f if r.get("no_calibration") or calib[(r["case"]["file"], r["case"]["line"])]]
-    mism += [r for r in pending_m if calib[(r["case"]["file"], r["case"]["line"])]]
+    fails += [r for r in pending_f if r.get("no_calibration") or calib[spot(r["case"])]]
+    mism += [r for r in pending_m if calib[spot(r["case"])]]
     hist["e2e:binary-runs"] = nruns[0]
     return 2 * len(cases), nontrivial, samples, len(cases)
 
@@ -1181,11 +1882,17 @@ HOWTO = {
           "echo '<line>' | lean/.lake/build/bin/c10driver gives the model's; protocol in lean/Verif/C10/Driver.lean",
     "sup": "as for fi (op sup)",
     "u1k": "as for fi (op u1k): the real unused.Graph on the synthetic package described in harness/cmd/c10filter/main.go (func u1k)",
-    "e2e": "copy corpus/C10/pkg, insert case.text (indented like the target) above line case.line of case.file, run "
-           "`staticcheck -f json [-checks <CONFIGS[case.config]>] [-show-ignored] ./...` and compare with the run on the unmodified copy",
+    "e2e": "the package is in `files` of the case (= corpus/C10/pkg with the //line comments of case.variant, see variant_layout, and "
+           "case.text put at line case.line of case.file in the shape case.shape, see apply_shape in checks/c10.py): write the files "
+           "next to corpus/C10/pkg/go.mod, run `staticcheck -f json [-checks <CONFIGS[case.config]>] [-show-ignored] ./...` and compare "
+           "with the run on the same files without the directive comment",
+    "src": "save `source` as x.go in a directory with a go.mod and run `staticcheck -checks all ./...`, or: "
+           "echo \"pdf $(xxd -p -c0 x.go)\" | go run -tags verif ./cmd/c10filter (in /verif/harness) prints the directives the real "
+           "lint.ParseDirectives + runner.serializeDirective read from the file (<cmd> <nargs> <args> <comment position> <node position>, hex strings)",
 }
 
 KEY_TEXT = {
+    "comment-to-directive": "a `//lint:` comment of a source file is not read as exactly one directive located at the printed position of the comment and attached to the code line it stands on/above",
     "other-files": "a directive changed problems of files other than its own (package of renamed copies of corpus/C10/pkg, class Copies in checks/c10.py; the copies are listed in package_cases)",
     "multi-file-package": "the statement fails for a placement only when the package holds further renamed copies of the two files with directives of their own (class Copies in checks/c10.py)",
     "useless-u1000-order": "whether a useless line directive is reported depends on where U1000 stands in its check list",
@@ -1226,6 +1933,8 @@ def run(ctx):
 
     rng = vlib.SplitMix(ctx.seed).fork("C10")
     n_fi, n_small, n_e2e = (30000, 4000, 110) if ctx.quick else (200000, 20000, 2000)
+    n_shapes, n_src = (100, 1500) if ctx.quick else (1500, 20000)
+    n_shapes = int(os.environ.get("VERIF_C10_SHAPES", n_shapes))
     # development knobs (defaults are the fixed case counts above)
     n_e2e = int(os.environ.get("VERIF_C10_E2E", n_e2e))
     n_fi = int(os.environ.get("VERIF_C10_FI", n_fi))
@@ -1250,8 +1959,8 @@ def run(ctx):
     with ThreadPoolExecutor(max_workers=1) as ex:
         f_ip = None
         if ctx.replay_cases is None:
-            f_ip = ex.submit(inprocess, ctx, binp, rng.fork("inprocess"), n_fi, n_small, fails_ip, mism_ip, hist_ip)
-        n, nt, sm, n_cli = end_to_end(ctx, sc, rng.fork("e2e"), n_e2e, all_checks, non_default, fails, mism, hist)
+            f_ip = ex.submit(inprocess, ctx, binp, rng.fork("inprocess"), n_fi, n_small, fails_ip, mism_ip, hist_ip, n_src)
+        n, nt, sm, n_cli = end_to_end(ctx, sc, binp, rng.fork("e2e"), n_e2e, n_shapes, all_checks, non_default, fails, mism, hist)
         lap("end-to-end (in-process phase beside it)")
         if f_ip is not None:
             n2, nt2, sm2 = f_ip.result()
@@ -1270,7 +1979,7 @@ def run(ctx):
     # statement held on everything explored so far -> three times as many generated inputs
     # (another stream of the same seed) through the oracle before saying "no failing input"
     if not fails and (mism or not lean_ok) and ctx.replay_cases is None:
-        n, nt, sm = inprocess(ctx, binp, rng.fork("search"), 3 * n_fi, 3 * n_small, fails, [], {})
+        n, nt, sm = inprocess(ctx, binp, rng.fork("search"), 3 * n_fi, 3 * n_small, fails, [], {}, 3 * n_src)
         evals += n
         ctx.notes.append("violation search run: %d further in-process inputs through the oracle, %d failing" % (n, len(fails)))
         lap("violation search")
